@@ -17,6 +17,7 @@ uint64_t g_t_al, g_t_cr, g_t_cg, g_t_cb, g_t_ca, g_t_dr, g_t_dg, g_t_db, g_t_da,
 uint64_t g_c1r, g_c1g, g_c1b, g_c1a;
 uint32_t g_cb_d, g_cb_s, g_cb_out;
 uint64_t g_ci_dr, g_ci_dg, g_ci_db, g_ci_da, g_ci_sr, g_ci_sg, g_ci_sb, g_ci_sa, g_co_r, g_co_g, g_co_b, g_co_a;
+size_t g_ln; bool g_conn; ssize_t g_fx, g_fy, g_lx, g_ly;
 #include "x_pixel_c.c"
 #include "x_canvas.c"
 
@@ -148,5 +149,5 @@ void L_blit_clip(Image* small, Image* big, const Image* source, ssize_t x, ssize
   POINT_D(big); Image_blit(big, source, x, y, w, h, sx, sy); }
 void l_fill_rect_clip(void) { Image *s, *b; IN_D IN_T IN_RECT; IN_RGBA; L_fill_rect_clip(s, b, in_x, in_y, in_w, in_h, in_r, in_g, in_b, in_a); VERIF_REACH(); }
 void l_blit_clip(void) { Image *s, *b; const Image* source; IN_D IN_S IN_T IN_BLIT; L_blit_clip(s, b, source, in_x, in_y, in_w, in_h, in_sx, in_sy); VERIF_REACH(); }
-void h_draw_line(void) { Image* self; IN_D ssize_t in_x0, in_y0, in_x1, in_y1; IN_RGBA; Image_draw_line(self, in_x0, in_y0, in_x1, in_y1, in_r, in_g, in_b, in_a); VERIF_REACH(); }
-void h_draw_line_c(void) { Image* self; IN_D ssize_t in_x0, in_y0, in_x1, in_y1; uint32_t in_c; Image_draw_line_c(self, in_x0, in_y0, in_x1, in_y1, in_c); VERIF_REACH(); }
+void h_draw_line(void) { Image* self; g_ln = 0; g_conn = 1; IN_D ssize_t in_x0, in_y0, in_x1, in_y1; IN_RGBA; Image_draw_line(self, in_x0, in_y0, in_x1, in_y1, in_r, in_g, in_b, in_a); VERIF_REACH(); }
+void h_draw_line_c(void) { Image* self; g_ln = 0; g_conn = 1; IN_D ssize_t in_x0, in_y0, in_x1, in_y1; uint32_t in_c; Image_draw_line_c(self, in_x0, in_y0, in_x1, in_y1, in_c); VERIF_REACH(); }
